@@ -389,6 +389,10 @@ class Runner:
         a = self.impl.ask(op)
         b = self.ask_model(op)
         rep.evaluations += 1
+        if uses_binary_name(op) and a and b:
+            # every way of turning a command with a non-UTF-8 name down (error, NOGROUP, refusal) is one class: `refused`
+            a = re.sub(r"^(err|nogroup)( ;;|$)", r"refused\2", a)
+            b = re.sub(r"^(err|nogroup)( ;;|$)", r"refused\2", b)
         out = {"op": op, "impl": a, "code": b, "verdict": None, "oracle": []}
         if op.startswith("pidle ") and a and b:
             # reported idle times are compared through windows by the caller, never as text
@@ -467,7 +471,7 @@ class Runner:
                 if (p_groups.get(h) and p_groups[h].text) != (groups.get(h) and groups[h].text):
                     out["oracle"].append(("isolation", "stream operation changed group %d" % h))
         # ---- global exactly-once ledger (independent of the Lean oracle)
-        if g is not None and reply not in ("nogroup", "panic"):
+        if g is not None and reply not in ("nogroup", "panic", "refused", "err", "busy"):
             if w[0] == "create" and reply == "ok":
                 start = (p_stream[-1] if p_stream else (0, 0)) if w[2] == "$" else parse_id(w[2])
                 self.ledger[g] = {"floor": start}
